@@ -603,6 +603,8 @@ bool Executor::report(State &s, const std::string &kind, const std::string &msg,
         failureKeys.insert(key); fillModel(s, f, nullptr); failures.push_back(f);
         return true;
     }
+    if (poisonUsed && bad.to_string().find("poison.fpcast") != std::string::npos)
+        f.msg += " [the failing condition depends on the result of an out-of-range float-to-integer conversion: undefined behaviour (float-cast-overflow)]";
     z3::expr notKnown = ZC->bool_val(true);
     std::vector<std::pair<std::string, z3::expr>> act;
     for (auto &k : s.known) if (opt.knownIds.count(k.first)) { act.push_back(k); notKnown = notKnown && !k.second; }
